@@ -32,7 +32,8 @@ CHECKS = {
     "C05": dict(
         text="Theorems (all trees): with default arguments the five iterator transcriptions equal the structural "
              "preorder / postorder / levels (concat, grouped, zig-zag) definitions; each output is a duplicate-free "
-             "permutation of the pre-order when node identities are distinct. Tie: every shape <= 6 nodes (every start "
+             "permutation of the pre-order when node identities are distinct - which holds for the unfolding below every "
+             "node of every consistent link state (C05_exactly_once_on_every_forest, via C01). Tie: every shape <= 6 nodes (every start "
              "node, standalone and embedded in a larger tree) + random trees, all five real iterators drained and "
              "compared in Coq; tree unchanged afterwards.",
         design="6/C05", note="Generator laziness is not modelled (outputs compared as lists).",
@@ -41,7 +42,8 @@ CHECKS = {
         text="Theorems (all trees, filters, stop predicates, maxlevel in Z or None): each of the five iterator "
              "transcriptions (incl. the fuelled worklist loops, fuel proved sufficient) equals its unrestricted order on "
              "prune stop maxlevel t filtered by filter_; prune = the pointwise admitted set of the statement; same "
-             "multiset for all five; maxlevel <= 0 yields nothing; the relative order of any two yielded nodes is the "
+             "multiset for all five; the relative-order theorems hold outright on every tree unfolded from a consistent link "
+             "state (C06_order_on_every_forest); maxlevel <= 0 yields nothing; the relative order of any two yielded nodes is the "
              "unrestricted order's (C06_order_pre/post/level: subsequence theorems). Tie: every shape <= 4 nodes x all stop subsets x all "
              "filter subsets x maxlevel in {None,-1,0..h+2}, plus 5-node shapes and random larger trees.",
         design="6/C06", note="filter_/stop are pure predicates; laziness not modelled.",
